@@ -491,8 +491,15 @@ pub fn run(ctx: &Ctx) -> Report {
     let base_e = base_d + 2000;
     // x where the list is split between the URL and a folded form body (0 = all in the URL, no folding;
     // 1 = the last pair in the body; 2 = all in the body)
-    let st_e = par_sweep(e2e_lists * 2 * 3, |i0, st| {
+    // x the form of the request target when everything is in the URL: origin-form, absolute-form, absolute-form
+    // without a path ("http://host?query")
+    let st_e = par_sweep(e2e_lists * 2 * 3 * 3, |i00, st| {
+        let target_form = i00 % 3;
+        let i0 = i00 / 3;
         let split = (i0 % 3) as usize;
+        if split != 0 && target_form != 0 {
+            return;
+        }
         let i = i0 / 3;
         let l = list_of(i / 2, 2);
         if split > l.len() {
@@ -520,9 +527,15 @@ pub fn run(ctx: &Ctx) -> Report {
             cfg.fold = true;
         }
         let built = build(&plan);
-        let case = Case { wire: WireReq::from_wire(&built.wire), cfg, prov: ProvSpec::standard() };
-        let j = e2e::judge_into(base_e + i0, &case, st);
-        if !j.sut.is_ok() && j.disagreement.is_none() && !j.unspecified {
+        let mut wire = WireReq::from_wire(&built.wire);
+        match target_form {
+            1 => wire.uri = format!("http://example.amazonaws.com{}", wire.uri),
+            2 => wire.uri = format!("http://example.amazonaws.com{}", wire.uri.strip_prefix('/').unwrap_or(&wire.uri)),
+            _ => {}
+        }
+        let case = Case { wire, cfg, prov: ProvSpec::standard() };
+        let j = e2e::judge_into(base_e + i00, &case, st);
+        if !j.sut.is_ok() && j.disagreement.is_none() && !j.unspecified && !matches!(j.sut, crate::sut::SutResult::Unbuildable(_)) {
             // reference and implementation agree on refusal of a reference-signed request: harness bug
             machinery_error(&format!("reference refuses its own signature for {:?}", case.wire.uri));
         }
@@ -580,7 +593,7 @@ pub fn run(ctx: &Ctx) -> Report {
             cfg.fold = true;
             let case = Case { wire: WireReq::from_wire(&build(&plan).wire), cfg, prov: ProvSpec::standard() };
             let before = st.violations.len();
-            let j = e2e::judge_into(base_e + e2e_lists * 6 + i, &case, st);
+            let j = e2e::judge_into(base_e + e2e_lists * 18 + i, &case, st);
             if st.violations.len() > before {
                 if let Some(v) = st.violations.last_mut() {
                     v.what = format!("folded-form({}):{}", label, v.what);
@@ -616,7 +629,7 @@ pub fn run(ctx: &Ctx) -> Report {
         v
     };
     let nh = hist.len() as u64;
-    let base_f = base_e + e2e_lists * 6 + 1000;
+    let base_f = base_e + e2e_lists * 18 + 1000;
     let st_f = par_sweep(nh * nh, |i, st| {
         let (x, y) = (&hist[(i / nh) as usize], &hist[(i % nh) as usize]);
         for (step, q) in [x, y].into_iter().enumerate() {
@@ -638,7 +651,7 @@ pub fn run(ctx: &Ctx) -> Report {
     Report {
         stats: st,
         rule: format!(
-            "(a) every ordered list of 0..={} parameters over {} names x {} values (all permutations included), compared with the reference canonical string computed from the logical multiset; (b) every list of <= {} parameters in every combination of {} per-element spellings (canonical, lower-case hex, needless escape, '+' for space, everything escaped) plus '&&'/leading/trailing '&' at every gap and omitted '='; (c) every byte 0..255 as %XX in both hex cases and every literal char < U+0800 in a name and in a value, every two-character escape over ASCII^2, malformed escapes at every position of three templates, '%' followed by multi-byte characters; 128 queries of 21..257 parameters over 1, 2, 3 or 8 repeated names in 4 arrival orders, each canonicalised 16 times through fresh maps; (d) iteration-order exhaustion of the crate's own HashMap for {} queries on worker and fresh OS threads, digests from {} fresh processes; (e) end-to-end acceptance of reference-signed requests for every list of <= 2 parameters on both carriers, all in the URL and with the last / all pairs in a folded form body (the same pair may then stand in both places), and 12 folded form bodies with a raw byte-order mark, zero-width marks, NUL or line ends, and 30 folded form bodies of 65 000 .. 1 048 577 bytes that are two pairs and otherwise empty segments ('&' runs between, before and after them), and 52 bodies (repeated as URL queries) with entity-like separators ('&amp;', '&#38;', ';', '&lt;', ...) between, before and after pairs; (f) every ordered pair over 58 related query strings (prefixes / extensions, case, escape and separator variants, 100- and 70-parameter strings differing only at the end, malformed ones) evaluated back to back on one thread, each judged alone. states = distinct canonical strings; non-trivial = input differs from its canonical form",
+            "(a) every ordered list of 0..={} parameters over {} names x {} values (all permutations included), compared with the reference canonical string computed from the logical multiset; (b) every list of <= {} parameters in every combination of {} per-element spellings (canonical, lower-case hex, needless escape, '+' for space, everything escaped) plus '&&'/leading/trailing '&' at every gap and omitted '='; (c) every byte 0..255 as %XX in both hex cases and every literal char < U+0800 in a name and in a value, every two-character escape over ASCII^2, malformed escapes at every position of three templates, '%' followed by multi-byte characters; 128 queries of 21..257 parameters over 1, 2, 3 or 8 repeated names in 4 arrival orders, each canonicalised 16 times through fresh maps; (d) iteration-order exhaustion of the crate's own HashMap for {} queries on worker and fresh OS threads, digests from {} fresh processes; (e) end-to-end acceptance of reference-signed requests for every list of <= 2 parameters on both carriers, all in the URL (request target in origin form, absolute form, and absolute form without a path) and with the last / all pairs in a folded form body (the same pair may then stand in both places), and 12 folded form bodies with a raw byte-order mark, zero-width marks, NUL or line ends, and 30 folded form bodies of 65 000 .. 1 048 577 bytes that are two pairs and otherwise empty segments ('&' runs between, before and after them), and 52 bodies (repeated as URL queries) with entity-like separators ('&amp;', '&#38;', ';', '&lt;', ...) between, before and after pairs; (f) every ordered pair over 58 related query strings (prefixes / extensions, case, escape and separator variants, 100- and 70-parameter strings differing only at the end, malformed ones) evaluated back to back on one thread, each judged alone. states = distinct canonical strings; non-trivial = input differs from its canonical form",
             max_len, NAMES.len(), VALUES.len(), resp_len, NVARIANTS, order_queries.len(), nproc
         ),
         bounds: json!({"max_params": max_len, "respelled_params": resp_len, "names": NAMES.len(), "values": VALUES.len()}),
